@@ -4,6 +4,7 @@ import ast
 
 from .. import astq, spec
 from .. import sym as S
+from ..report import MISSING
 from ..model import AnalysisError, ClassInfo
 from ..symeval import SymEval
 from . import cli_common as cc
@@ -44,6 +45,8 @@ def run(ctx):
 def geom_twin(ctx, R="R-C14-geom-twin"):
     prog = ctx.prog
     n_cfg = 0
+    RC = "R-C14-columns" if R.startswith("R-C14") else R
+    RS = "R-C14-symmetric-pad" if R.startswith("R-C14") else R
     for style, kaldi in sc.CONFIGS:
         centered = style == "centered"
         g = sc.torch_geometry(ctx, R, centered, kaldi)
@@ -60,9 +63,9 @@ def geom_twin(ctx, R="R-C14-geom-twin"):
         want_cols = S.add(S.call("len", S.sym("filters")), S.call("int", S.sym("include_energy")))
         res = S.compare(cols, want_cols, domain={})
         if res["verdict"] == "equal":
-            ctx.ok("R-C14-columns", f.loc(node), "[%s] empty result has len(filters) + int(include_energy) columns" % name)
+            ctx.ok(RC, f.loc(node), "[%s] empty result has len(filters) + int(include_energy) columns" % name)
         else:
-            ctx.bad("R-C14-columns", f, node, "the empty result has %s columns; STFTFrameComputer.compute_full returns "
+            ctx.bad(RC, f, node, "the empty result has %s columns; STFTFrameComputer.compute_full returns "
                     "num_filts + int(include_energy) columns for a too-short signal" % S.show(cols),
                     "empty result has the same number of columns as compute_full")
         pl_want = spec.geom_pad_left(style, kaldi)
@@ -77,11 +80,11 @@ def geom_twin(ctx, R="R-C14-geom-twin"):
         pl = sc.flipped_prefix(g["pad"]["left_expr"], sig)
         q = sc.flipped_suffix(g["pad"]["right_expr"], sig)
         if pl is None or q is None or g["pad"]["mid"] != S.sym(sig):
-            ctx.bad("R-C14-symmetric-pad", f, g["full"][2],
+            ctx.bad(RS, f, g["full"][2],
                     "padding is not [sig[:p].flip(0), sig, sig[N-q:].flip(0)] (NumPy's 'symmetric' mode): left %s, right %s"
                     % (S.show(g["pad"]["left_expr"])[:80], S.show(g["pad"]["right_expr"])[:80]), "padding is symmetric reflection")
             continue
-        ctx.ok("R-C14-symmetric-pad", f.loc(g["full"][2]), "[%s] padding is sig[:p].flip(0) ++ sig ++ sig[N-q:].flip(0) (numpy 'symmetric')" % name)
+        ctx.ok(RS, f.loc(g["full"][2]), "[%s] padding is sig[:p].flip(0) ++ sig ++ sig[N-q:].flip(0) (numpy 'symmetric')" % name)
         sc.same(ctx, R, f, g["full"][2], "[%s] left padding" % name, pl, pl_want)
         sc.same(ctx, R, f, g["full"][2], "[%s] right padding" % name, S.sub(sc.N, sc.canon_len(q, [sig])), pr_want)
     ctx.floor(R, n_cfg, 3)
@@ -92,14 +95,14 @@ def mirror_twin(ctx, R="R-C14-mirror-twin"):
     sc.check_mirror(ctx, R, m, S.sym("si"), S.call("len", S.sym("filt")), flipped_slices=True)
     f = m["func"]
     w = m["while"]
-    ctx.check(astq.text(w.test).replace(" ", "") in ("consumed<filt_len", "filt_len>consumed"), "R-C14-walk-twin", f, w,
+    ctx.check(astq.in_texts(w.test, ("consumed<filt_len", "filt_len>consumed",)), "R-C14-walk-twin", f, w,
               "the walk continues until the truncated filter is consumed", "walk condition is %s" % astq.text(w.test))
     alt = [s for s in w.body if isinstance(s, ast.Assign) and astq.is_name(s.targets[0], "conj")]
-    ctx.check(len(alt) == 1 and astq.text(alt[0].value) == "not conj", "R-C14-walk-twin", f, alt[0] if alt else w,
+    ctx.check(len(alt) == 1 and astq.text(alt[0].value) == "not conj", "R-C14-walk-twin", f, alt[0] if alt else MISSING(w),
               "direct and mirrored segments alternate", "the direct/mirrored alternation is %s" % (astq.text(alt[0].value) if alt else None))
     clamp = [s for s in w.body if isinstance(s, ast.Assign) and astq.is_name(s.targets[0], "si")]
-    ctx.check(len(clamp) == 1 and astq.text(clamp[0].value).replace(" ", "") in ("max(0,si)", "max(si,0)"), "R-C14-walk-twin", f,
-              clamp[0] if clamp else w, "the next start bin is clamped at 0", "start-bin clamp is %s" % (astq.text(clamp[0].value) if clamp else None))
+    ctx.check(len(clamp) == 1 and astq.in_texts(clamp[0].value, ("max(0,si)", "max(si,0)",)), "R-C14-walk-twin", f,
+              clamp[0] if clamp else MISSING(w), "the next start bin is clamped at 0", "start-bin clamp is %s" % (astq.text(clamp[0].value) if clamp else None))
 
 
 def nameflow(ctx, R="R-C14-nameflow"):
@@ -156,7 +159,7 @@ def nameflow(ctx, R="R-C14-nameflow"):
     # the (offset, filter) pairs keep their order: zip(starts, filters) unpacked as (o, x)
     zips = [c for c in astq.func_calls(fac) if astq.is_name(c.func, "zip")]
     okz = len(zips) == 1 and [astq.text(a) for a in zips[0].args] == ["%s._filt_start_idxs" % comp, "%s._truncated_filts" % comp]
-    ctx.check(okz, R, fac, zips[0] if zips else fac.node, "start bins are paired with their own filters, in bank order",
+    ctx.check(okz, R, fac, zips[0] if zips else MISSING(fac.node), "start bins are paired with their own filters, in bank order",
               "filters/offsets pairing is %s" % (astq.text(zips[0]) if zips else None))
     # hop 2: __init__ param -> self attribute
     selfn = init.params[0]
@@ -203,7 +206,7 @@ def nameflow(ctx, R="R-C14-nameflow"):
                       "self.%s is stored from %s, not from constructor parameter %s" % (at, sorted(src), ctor))
     # frame_style -> centered
     src, v = attr_of.get("centered", (set(), None))
-    ok = v is not None and astq.text(v).replace(" ", "") in ("frame_style=='centered'", '"centered"==frame_style', "frame_style==\"centered\"")
+    ok = v is not None and astq.in_texts(v, ("frame_style=='centered'", '"centered"==frame_style', "frame_style==\"centered\"",))
     ctx.check(ok, R, init, v if v is not None else init.node, "centered is frame_style == 'centered'",
               "self.centered is %s" % (astq.text(v) if v is not None else None))
     # every functional parameter except eps is supplied by forward
@@ -217,12 +220,12 @@ def nameflow(ctx, R="R-C14-nameflow"):
         m = prog.own_method(c, meth)
         r = astq.returns_of(m)
         ok = len(r) == 1 and astq.text(r[0].value) == "%s(%s.%s)" % (m.params[0], m.params[1], attr)
-        ctx.check(ok, R, m, r[0] if r else m.node, "%s.%s copies %s" % (cname, meth, attr), "%s.%s is %s" % (cname, meth, astq.text(r[0].value) if r else None))
+        ctx.check(ok, R, m, r[0] if r else MISSING(m.node), "%s.%s copies %s" % (cname, meth, attr), "%s.%s is %s" % (cname, meth, astq.text(r[0].value) if r else None))
         fw = prog.own_method(c, "forward")
         r = astq.returns_of(fw)
         fname = "pytorch_preemphasize" if "Preemph" in cname else "pytorch_dither"
         ok = len(r) == 1 and astq.text(r[0].value) == "%s(%s, self.%s)" % (fname, fw.params[1], attr)
-        ctx.check(ok, R, fw, r[0] if r else fw.node, "%s.forward passes its coeff to %s" % (cname, fname),
+        ctx.check(ok, R, fw, r[0] if r else MISSING(fw.node), "%s.forward passes its coeff to %s" % (cname, fname),
                   "%s.forward is %s" % (cname, astq.text(r[0].value) if r else None))
 
 
@@ -281,7 +284,7 @@ def reductions(ctx, R="R-C14-walk-twin"):
     loops = [n for n in f.body_nodes() if isinstance(n, ast.For) and isinstance(n.iter, ast.Call) and astq.is_name(n.iter.func, "zip")]
     ok = len(loops) == 1 and [astq.text(a) for a in loops[0].iter.args] == ["offsets", "filters"]
     apps = [c for c in astq.calls_in(loops[0]) if astq.attr_call(c, "append") and astq.is_name(c.func.value, "y")] if loops else []
-    ctx.check(ok and len(apps) == 1, R, f, loops[0] if loops else f.node, "one coefficient per (offset, filter) pair, in bank order",
+    ctx.check(ok and len(apps) == 1, R, f, loops[0] if loops else MISSING(f.node), "one coefficient per (offset, filter) pair, in bank order",
               "filter loop is %s with %d appends" % (astq.text(loops[0].iter) if loops else None, len(apps)))
 
 
@@ -297,7 +300,7 @@ def wrappers(ctx, R="R-C14-wrappers"):
         r = astq.returns_of(fw)
         ok = len(r) == 1 and isinstance(r[0].value, ast.Call) and astq.is_self_attr(r[0].value.func, fw.params[0]) and \
             len(r[0].value.args) == 1 and astq.is_name(r[0].value.args[0], fw.params[1])
-        ctx.check(ok, R, fw, r[0] if r else fw.node, "%s.forward delegates to its wrapped NumPy call" % cname, "%s.forward is %s" % (cname, astq.text(r[0].value) if r else None))
+        ctx.check(ok, R, fw, r[0] if r else MISSING(fw.node), "%s.forward delegates to its wrapped NumPy call" % cname, "%s.forward is %s" % (cname, astq.text(r[0].value) if r else None))
         helper = c.methods.get(r[0].value.func.attr) if ok else None
         ctx.need(helper is not None, R, "helper of %s.forward not found" % cname)
         hr = astq.returns_of(helper)
